@@ -4,6 +4,8 @@ from vf.ref.machine import Unpred, Skip, Abort, M32
 
 def translate_v(M, va, ispriv, iswrite, size, wasaligned):
     hyp = M.is_hyp()
+    if (va >> 25) == 0:                 # FCSETranslate()
+        va = ((M.s.get('fcseidr', 0) >> 25) << 25) | va
     enabled = ((M.s['hsctlr'] & 1) if hyp else (M.s['sctlr'] & 1))
     if not enabled:
         # stage 1 off: flat map, Strongly-ordered => an unaligned (byte-wise) access faults
@@ -17,5 +19,33 @@ def translate_v(M, va, ispriv, iswrite, size, wasaligned):
     raise Skip('MMU on: see vf/ref/mmuwalk.py')
 
 
+SD_FS = {'alignment': 0b00001, 'translation': (0b00101, 0b00111), 'access_flag': (0b00011, 0b00110), 'domain': (0b01001, 0b01011),
+         'permission': (0b01101, 0b01111)}
+
+
 def report_abort(M, ab):
-    raise Skip('VMSA fault reporting')
+    """DFSR/DFAR for a synchronous data abort on VMSA, short-descriptor format (B3.13, B4.1.52)"""
+    hyp = M.is_hyp() or (ab.kind == 'alignment' and M.virt_ext() and (M.s.get('hcr', 0) >> 27) & 1 and False)
+    if M.is_hyp() or ab.extra.get('ldformat') or (M.s.get('ttbcr', 0) >> 31) & 1:
+        raise Skip('Hyp-mode / long-descriptor fault syndromes')
+    if M.virt_ext() and (M.s.get('hcr', 0) >> 27) & 1 and ab.kind == 'alignment':
+        raise Skip('alignment fault routed to Hyp mode (HCR.TGE)')
+    if M.cfg.get('have_lpae'):
+        if not M.hooked:
+            raise NotImpl('TLBLookupCameFromCacheMaintenance')
+    level = ab.extra.get('level', 1)
+    fs = SD_FS[ab.kind]
+    if isinstance(fs, tuple):
+        fs = fs[level - 1]
+    v = ((1 if ab.iswrite else 0) << 11) | ((fs >> 4) << 10) | (fs & 15)
+    domain_valid = ab.kind == 'domain' or (level == 2 and ab.kind in ('translation', 'access_flag')) or \
+        (not M.cfg.get('have_lpae') and ab.kind == 'permission')
+    if domain_valid:
+        v |= (ab.extra.get('domain', 0) & 15) << 4
+    else:
+        M.unknown_bits['dfsr'] = 0xF0
+    M.s['dfsr'] = (M.s['dfsr'] & ~0x3FFF) | v
+    addr = ab.addr & M32
+    if ab.kind == 'alignment' and (addr >> 25) == 0:
+        addr |= (M.s.get('fcseidr', 0) >> 25) << 25        # AlignmentFaultV reports the MVA
+    M.s['dfar'] = addr
